@@ -65,8 +65,21 @@ def _limit(mem_gb):
     return f
 
 
+_ext_ready = False
+
+
 def sync_lock():
-    """the external crate must see exactly the dependency versions of /repo/Cargo.lock"""
+    """the external crate must see exactly the dependency versions of the repository's Cargo.lock; when the checks
+    run against another tree than /repo the crate is copied with its path dependencies redirected"""
+    global EXT, _ext_ready
+    if REPO != "/repo" and not _ext_ready:
+        dst = os.path.join(BUILD, "ext-src")
+        shutil.rmtree(dst, ignore_errors=True)
+        shutil.copytree(EXT, dst, ignore=shutil.ignore_patterns("target"))
+        ct = open(os.path.join(dst, "Cargo.toml")).read().replace('"/repo/', '"%s/' % REPO)
+        open(os.path.join(dst, "Cargo.toml"), "w").write(ct)
+        EXT = dst
+        _ext_ready = True
     shutil.copyfile(os.path.join(REPO, "Cargo.lock"), os.path.join(EXT, "Cargo.lock"))
 
 
